@@ -111,6 +111,1144 @@ Lemma int_to_float_lemma k v z inlit :
 Proof.
   intros Hk Hv. split; [|split].
   - destruct Hk; subst k; destruct v; cbn in Hv; inversion Hv; subst; reflexivity.
-  - intros _ Hz. apply round_fin_exact; try lia. exact Hz.
-  - intros _ Hz. apply round_fin_exact; try lia. exact Hz.
+  - intros _ Hz. apply round_fin_exact; lia.
+  - intros _ Hz. apply round_fin_exact; lia.
 Qed.
+
+(* ================================================================== the two passes *)
+Section Passes.
+Variable sch : schema.
+Variable tt : N.
+
+Definition other_phase (c : bool) (st : stmt) : bool := negb (Bool.eqb (is_custom st) c).
+
+Lemma pass_strict_remain c T : forall uo m m' rem,
+  pass_strict sch tt c T m uo = Ok (m', rem) -> rem = filter (other_phase c) uo.
+Proof.
+  induction uo as [|st r IH]; intros m m' rem H; cbn [pass_strict] in H.
+  - inversion H; reflexivity.
+  - cbn [filter]. unfold other_phase at 1.
+    destruct (negb (Bool.eqb (is_custom st) c)) eqn:E.
+    + destruct (pass_strict sch tt c T m r) as [[m2 rem2]|x] eqn:E2; [|discriminate].
+      inversion H; subst. f_equal. eapply IH; eassumption.
+    + destruct (interpret_field sch tt T m (sname st) (svalue st)) as [m1 [|x es]]; [|discriminate].
+      eapply IH; eassumption.
+Qed.
+
+Lemma filter_other_phase_false_true l :
+  filter (other_phase true) (filter (other_phase false) l) = [].
+Proof.
+  induction l as [|st r IH]; [reflexivity|]. cbn [filter]. unfold other_phase at 2.
+  destruct (is_custom st) eqn:E; cbn [Bool.eqb negb].
+  - cbn [filter]. unfold other_phase at 1. rewrite E. cbn. exact IH.
+  - exact IH.
+Qed.
+
+(* C20: after a successful strict interpretation nothing is left uninterpreted *)
+Lemma no_uninterpreted_left_on_success_lemma T m0 stmts m rem :
+  interpret_strict sch tt T m0 stmts = Ok (m, rem) -> rem = [].
+Proof.
+  unfold interpret_strict. intros H.
+  destruct (pass_strict sch tt false T m0 stmts) as [[m1 r1]|x] eqn:E1; [|discriminate].
+  apply pass_strict_remain in E1. apply pass_strict_remain in H. subst.
+  apply filter_other_phase_false_true.
+Qed.
+
+Lemma pass_strict_lenient c T : forall uo m m' rem,
+  pass_strict sch tt c T m uo = Ok (m', rem) -> pass_lenient sch tt c T m uo = LOk m' rem.
+Proof.
+  induction uo as [|st r IH]; intros m m' rem H; cbn [pass_strict] in H; cbn [pass_lenient].
+  - inversion H; reflexivity.
+  - destruct (negb (Bool.eqb (is_custom st) c)).
+    + destruct (pass_strict sch tt c T m r) as [[m2 rem2]|x] eqn:E2; [|discriminate].
+      inversion H; subst. rewrite (IH _ _ _ E2). reflexivity.
+    + destruct (interpret_field sch tt T m (sname st) (svalue st)) as [m1 [|x es]]; [|discriminate].
+      cbn [has_panic existsb]. rewrite (IH _ _ _ H). reflexivity.
+Qed.
+
+(* C21: when strict interpretation succeeds, lenient interpretation yields the same message and leaves
+   nothing uninterpreted *)
+Lemma strict_ok_implies_lenient_same_lemma T m0 stmts m rem :
+  interpret_strict sch tt T m0 stmts = Ok (m, rem) ->
+  interpret_lenient sch tt T m0 stmts = LOk m [] /\ rem = [].
+Proof.
+  intros H. pose proof (no_uninterpreted_left_on_success_lemma _ _ _ _ _ H) as ->. split; [|reflexivity].
+  unfold interpret_strict in H. unfold interpret_lenient.
+  destruct (pass_strict sch tt false T m0 stmts) as [[m1 r1]|x] eqn:E1; [|discriminate].
+  rewrite (pass_strict_lenient _ _ _ _ _ _ E1). apply pass_strict_lenient. exact H.
+Qed.
+
+(* C21: the remainder of a lenient run is what one walk in source order keeps: exactly the statements whose
+   own interpretation reported an error, verbatim and in order *)
+Lemma pass_lenient_ref_walk T : forall stmts ma mb m1 r1 m rem,
+  pass_lenient sch tt false T ma stmts = LOk m1 r1 ->
+  pass_lenient sch tt true T mb r1 = LOk m rem ->
+  ref_walk sch tt T ma mb stmts = (m1, m, rem).
+Proof.
+  induction stmts as [|st r IH]; intros ma mb m1 r1 m rem H1 H2; cbn [pass_lenient] in H1; cbn [ref_walk].
+  - inversion H1; subst. cbn in H2. inversion H2; subst. reflexivity.
+  - destruct (is_custom st) eqn:Ec; cbn [Bool.eqb negb] in H1.
+    + (* custom: skipped by the first pass, interpreted by the second *)
+      destruct (pass_lenient sch tt false T ma r) as [m1' r1'|] eqn:E1; [|discriminate].
+      inversion H1; subst. cbn [pass_lenient] in H2. rewrite Ec in H2. cbn [Bool.eqb negb] in H2.
+      destruct (interpret_field sch tt T mb (sname st) (svalue st)) as [mb' e] eqn:Ei.
+      destruct (has_panic e); [discriminate|].
+      destruct (pass_lenient sch tt true T mb' r1') as [m' rem'|] eqn:E2; [|discriminate].
+      inversion H2; subst. rewrite (IH _ _ _ _ _ _ E1 E2). destruct e; reflexivity.
+    + (* non-custom: interpreted by the first pass; if kept, skipped by the second *)
+      destruct (interpret_field sch tt T ma (sname st) (svalue st)) as [ma' e] eqn:Ei.
+      destruct (has_panic e); [discriminate|].
+      destruct (pass_lenient sch tt false T ma' r) as [m1' r1'|] eqn:E1; [|discriminate].
+      inversion H1; subst. destruct e as [|x es].
+      * rewrite (IH _ _ _ _ _ _ E1 H2). reflexivity.
+      * cbn [pass_lenient] in H2. rewrite Ec in H2. cbn [Bool.eqb negb] in H2.
+        destruct (pass_lenient sch tt true T mb r1') as [m' rem'|] eqn:E2; [|discriminate].
+        inversion H2; subst. rewrite (IH _ _ _ _ _ _ E1 E2). reflexivity.
+Qed.
+
+Lemma uninterpreted_kept_verbatim_lemma T m0 stmts m rem :
+  interpret_lenient sch tt T m0 stmts = LOk m rem ->
+  exists m1, ref_walk sch tt T m0 m1 stmts = (m1, m, rem).
+Proof.
+  unfold interpret_lenient. intros H.
+  destruct (pass_lenient sch tt false T m0 stmts) as [m1 r1|] eqn:E1; [|discriminate].
+  exists m1. eapply pass_lenient_ref_walk; eassumption.
+Qed.
+End Passes.
+
+(* the remainder of ref_walk is a subsequence of the statements *)
+Inductive subseq {A} : list A -> list A -> Prop :=
+| subseq_nil : subseq [] []
+| subseq_keep x a b : subseq a b -> subseq (x :: a) (x :: b)
+| subseq_drop x a b : subseq a b -> subseq a (x :: b).
+
+Lemma ref_walk_subseq sch tt T : forall sts ma mb ma' mb' rem,
+  ref_walk sch tt T ma mb sts = (ma', mb', rem) -> subseq rem sts.
+Proof.
+  induction sts as [|st r IH]; intros ma mb ma' mb' rem H; cbn [ref_walk] in H.
+  - inversion H; constructor.
+  - destruct (is_custom st).
+    + destruct (interpret_field sch tt T mb (sname st) (svalue st)) as [mb1 e].
+      destruct (ref_walk sch tt T ma mb1 r) as [[ma2 mb2] rem2] eqn:E. inversion H; subst.
+      destruct e; [apply subseq_drop|apply subseq_keep]; eapply IH; eassumption.
+    + destruct (interpret_field sch tt T ma (sname st) (svalue st)) as [ma1 e].
+      destruct (ref_walk sch tt T ma1 mb r) as [[ma2 mb2] rem2] eqn:E. inversion H; subst.
+      destruct e; [apply subseq_drop|apply subseq_keep]; eapply IH; eassumption.
+Qed.
+
+(* ================================================================== half-populated messages *)
+(* The code as it is: a failing statement can leave the message changed.  Three witnesses, one per way. *)
+Definition hp_inner : msgdesc :=
+  mkMsg [mkField "a" 1%N KInt32 false None false []; mkField "r" 3%N KInt32 true None false [];
+         mkField "sub" 4%N (KMsg 1) false None false []].
+Definition hp_schema : schema :=
+  mkSchema [mkMsg []; hp_inner] []
+           [mkExt "foo" 0%nat (mkField "foo" 50001%N (KMsg 1) false None false []);
+            mkExt "onfield" 0%nat (mkField "onfield" 50002%N KInt32 false None false [4%N])].
+
+(* (foo).sub.a = a string : the intermediate messages stay behind *)
+Lemma half_population_path :
+  interpret_field hp_schema 3%N 0%nat [] [PExt "foo"; PField "sub"; PField "a"] (OStr [98%N])
+  = ([(50001%N, VM [(4%N, VM [])])], [EType]).
+Proof. vm_compute. reflexivity. Qed.
+
+(* (foo) = { r: [1, 2, a string] } : the literal is stored without the failing field value *)
+Lemma half_population_literal :
+  interpret_field hp_schema 3%N 0%nat [] [PExt "foo"] (OMsg [(LField "r", OList [OUint 1; OUint 2; OStr [120%N]])])
+  = ([(50001%N, VM [(3%N, VL [VS (SInt 1); VS (SInt 2)])])], [EType]).
+Proof. vm_compute. reflexivity. Qed.
+
+(* (onfield) = 1 on a message although the option is restricted to fields : the value is stored all the same *)
+Lemma half_population_target :
+  interpret_field hp_schema 3%N 0%nat [] [PExt "onfield"] (OUint 1)
+  = ([(50002%N, VS (SInt 1))], [ETargetType]).
+Proof. vm_compute. reflexivity. Qed.
+
+Lemma no_half_population_refuted_lemma :
+  exists sch tt T m name v m' e,
+    interpret_field sch tt T m name v = (m', e) /\ e <> [] /\ m' <> m.
+Proof.
+  exists hp_schema, 3%N, 0%nat, [], [PExt "foo"; PField "sub"; PField "a"], (OStr [98%N]).
+  eexists. eexists. split; [apply half_population_path|]. split; discriminate.
+Qed.
+
+(* and the whole lenient run hands back that message together with the statement as uninterpreted *)
+Lemma no_half_population_run_refuted_lemma :
+  exists sch tt T st m,
+    interpret_lenient sch tt T [] [st] = LOk m [st] /\ m <> [].
+Proof.
+  exists hp_schema, 3%N, 0%nat, (mkStmt [PExt "foo"; PField "sub"; PField "a"] (OStr [98%N])).
+  eexists. split; [vm_compute; reflexivity|discriminate].
+Qed.
+
+(* Where it does hold. *)
+Lemma mset_same n v : forall m, mget n m = Some v -> mset n v m = m.
+Proof.
+  induction m as [|[k w] r IH]; cbn [mget mset]; [discriminate|].
+  destruct (N.eqb_spec k n).
+  - intros H. inversion H; subst. reflexivity.
+  - intros H. rewrite (IH H). reflexivity.
+Qed.
+
+Lemma field_by_name_In fs n f : field_by_name fs n = Some f -> In f fs.
+Proof.
+  induction fs as [|g r IH]; cbn; [discriminate|].
+  destruct (String.eqb (fname g) n); [intros H; inversion H; auto|auto].
+Qed.
+Lemma ext_by_name_In xs n x : ext_by_name xs n = Some x -> In x xs.
+Proof.
+  induction xs as [|g r IH]; cbn; [discriminate|].
+  destruct (String.eqb (xname g) n); [intros H; inversion H; auto|auto].
+Qed.
+Lemma msg_fields_In sch md f : In f (msg_fields sch md) -> exists d, In d (smsgs sch) /\ In f (mfields d).
+Proof.
+  unfold msg_fields. destruct (nth_error (smsgs sch) md) as [d|] eqn:E; [|intros []].
+  intros H. exists d. split; [eapply nth_error_In; eassumption|assumption].
+Qed.
+
+(* a property of all fields of a schema holds for whatever a lookup returns *)
+Definition all_fields (P : field -> bool) (sch : schema) : bool :=
+  forallb (fun d => forallb P (mfields d)) (smsgs sch) && forallb (fun x => P (xfield x)) (sexts sch).
+Lemma all_fields_msg P sch md f : all_fields P sch = true -> In f (msg_fields sch md) -> P f = true.
+Proof.
+  unfold all_fields. intros H Hin. apply andb_prop in H. destruct H as [H _].
+  apply msg_fields_In in Hin. destruct Hin as [d [Hd Hf]].
+  rewrite forallb_forall in H. specialize (H d Hd). rewrite forallb_forall in H. auto.
+Qed.
+Lemma all_fields_ext P sch x : all_fields P sch = true -> In x (sexts sch) -> P (xfield x) = true.
+Proof.
+  unfold all_fields. intros H Hin. apply andb_prop in H. destruct H as [_ H].
+  rewrite forallb_forall in H. auto.
+Qed.
+Lemma all_fields_lookup P sch md nm f : all_fields P sch = true -> lookup_part sch md nm = Ok f -> P f = true.
+Proof.
+  intros H. destruct nm as [s|s]; cbn [lookup_part].
+  - destruct (field_by_name (msg_fields sch md) s) as [g|] eqn:E; [|discriminate].
+    intros E2; inversion E2; subst. apply (all_fields_msg P sch md); [assumption|]. eapply field_by_name_In; eassumption.
+  - destruct (ext_by_name (sexts sch) s) as [x|] eqn:E; [|discriminate].
+    destruct (Nat.eqb (xextendee x) md); [|discriminate].
+    intros E2; inversion E2; subst. apply (all_fields_ext P sch); [assumption|]. eapply ext_by_name_In; eassumption.
+Qed.
+
+Lemma targets_free_all sch : targets_free sch = all_fields no_targets sch.
+Proof. reflexivity. Qed.
+
+Lemma no_targets_usage tt f : no_targets f = true -> check_field_usage tt f = [].
+Proof. unfold no_targets, check_field_usage. destruct (ftargets f); [reflexivity|discriminate]. Qed.
+
+(* the value of a scalar-shaped literal is computed without reporting an error, or it is invalid *)
+Lemma field_value_scalar_shaped sch tt fld v inlit ov e :
+  scalar_shaped v = true -> field_value sch tt fld v inlit = (ov, e) ->
+  (ov = None) \/ (e = []).
+Proof.
+  intros Hs H. destruct v; try discriminate; cbn [field_value] in H;
+    destruct (fkind fld);
+    repeat match type of H with
+           | context [match ?x with _ => _ end] => destruct x
+           end; inversion H; auto.
+Qed.
+
+Lemma set_option_field_scalar_fail sch tt fields m fld v m' e :
+  scalar_shaped v = true -> set_option_field sch tt fields m fld v false = (m', e) -> e <> [] -> m' = m.
+Proof.
+  intros Hs H He. unfold set_option_field, set_option_field_with in H.
+  assert (Hv : match v with OList _ => False | _ => True end) by (destruct v; try exact I; discriminate).
+  destruct v; try contradiction; cbn [andb] in H;
+    (destruct (field_value sch tt fld _ false) as [ov e0] eqn:Ef;
+     pose proof (field_value_scalar_shaped _ _ _ _ _ _ _ Hs Ef) as Hd;
+     destruct ov as [x|]; [|inversion H; reflexivity];
+     destruct Hd as [Hd|Hd]; [discriminate|subst e0];
+     destruct (oneof_conflict fields fld m); [inversion H; reflexivity|];
+     destruct (frep fld); [inversion H; subst; congruence|];
+     destruct (has fld m); inversion H; subst; [reflexivity|congruence]).
+Qed.
+
+Lemma no_half_population_partial_lemma sch tt : targets_free sch = true ->
+  forall name T m v m' e,
+  scalar_shaped v = true -> prefix_present sch T m name = true ->
+  interpret_field sch tt T m name v = (m', e) -> e <> [] -> m' = m.
+Proof.
+  intros Htf. rewrite targets_free_all in Htf.
+  induction name as [|nm rest IH]; intros T m v m' e Hs Hp H He; cbn [interpret_field] in H.
+  - inversion H; reflexivity.
+  - cbn [prefix_present] in Hp.
+    destruct (lookup_part sch T nm) as [fld|x] eqn:El; [|inversion H; reflexivity].
+    pose proof (no_targets_usage tt fld (all_fields_lookup _ _ _ _ _ Htf El)) as Hu. rewrite Hu in H.
+    cbn [app] in H. destruct rest as [|nm2 rest2].
+    + destruct (set_option_field sch tt (msg_fields sch T) m fld v false) as [m2 e2] eqn:Es.
+      inversion H; subst. eapply set_option_field_scalar_fail; eassumption.
+    + destruct (fkind fld) as [| | | | | | | | | | | | | | | |sub]; try (inversion H; reflexivity).
+      destruct (frep fld); [inversion H; reflexivity|].
+      destruct (mget (fnum fld) m) as [[s|s|s]|] eqn:Eg; try discriminate.
+      assert (Hhas : has fld m = true) by (unfold has; rewrite Eg; destruct (fimplicit fld); reflexivity).
+      rewrite Hhas in H. unfold sub_at in H. rewrite Eg in H.
+      destruct (interpret_field sch tt sub s (nm2 :: rest2) v) as [s' e'] eqn:Er.
+      inversion H; subst. rewrite (IH _ _ _ _ _ Hs Hp Er He). apply mset_same. exact Eg.
+Qed.
+
+(* ================================================================== model = specification: leaf values *)
+Lemma lexable_b_lexable v : lexable_b v = true -> lexable v.
+Proof.
+  destruct v; cbn; try exact (fun _ => I); intros H; apply andb_prop in H; destruct H as [H1 H2];
+    apply Z.leb_le in H1; apply Z.leb_le in H2; lia.
+Qed.
+
+Lemma scalar_eq_spec k v inlit : lexable v -> scalar_field_value k v inlit = spec_scalar k v inlit.
+Proof.
+  intros Hl. unfold spec_scalar. destruct (int_range k) as [[lo hi]|] eqn:Er.
+  - destruct (num_value v) as [z|] eqn:Ev.
+    + eapply scalar_coercion_ranges_lemma; eassumption.
+    + eapply noninteger_rejected_lemma; eassumption.
+  - destruct k; try discriminate; try reflexivity.
+    + (* bool *)
+      destruct v; try reflexivity. destruct inlit; cbn [scalar_field_value true_words false_words str_in existsb].
+      * reflexivity.
+      * rewrite !orb_false_r. reflexivity.
+    + (* float *) destruct v as [| |d| | | |]; try reflexivity. destruct d; reflexivity.
+    + (* double *) destruct v as [| |d| | | |]; try reflexivity. destruct d; reflexivity.
+Qed.
+
+Lemma enum_by_name_find vs n :
+  enum_by_name vs n = option_map snd (find (fun p => String.eqb (fst p) n) vs).
+Proof.
+  induction vs as [|[s z] r IH]; [reflexivity|]. cbn [enum_by_name find fst].
+  destruct (String.eqb s n); [reflexivity|exact IH].
+Qed.
+
+Lemma enum_eq_spec ed v b : lexable v -> enum_field_value ed v b = spec_enum ed v b.
+Proof.
+  intros Hl. unfold enum_field_value, spec_enum, enum_has_number. destruct v; try reflexivity.
+  - destruct (negb b); [reflexivity|]. unfold max_int32, min_int32. rewrite Z.gtb_ltb.
+    destruct (Z.ltb_spec 2147483647 z); destruct (Z.ltb_spec z (-2147483648));
+      destruct (Z.leb_spec (- 2 ^ 31) z); destruct (Z.leb_spec z (2 ^ 31 - 1)); cbn [orb andb negb]; try lia; try reflexivity.
+    destruct (existsb (fun p => snd p =? z) (evalues ed)); destruct (eclosed ed); reflexivity.
+  - cbn in Hl. destruct (negb b); [reflexivity|]. unfold max_int32. rewrite Z.gtb_ltb.
+    destruct (Z.ltb_spec 2147483647 n);
+      destruct (Z.leb_spec (- 2 ^ 31) n); destruct (Z.leb_spec n (2 ^ 31 - 1)); cbn [orb andb negb]; try lia; try reflexivity.
+    destruct (existsb (fun p => snd p =? n) (evalues ed)); destruct (eclosed ed); reflexivity.
+  - rewrite enum_by_name_find. destruct (find (fun p => String.eqb (fst p) s) (evalues ed)); reflexivity.
+Qed.
+
+(* ================================================================== model = specification: storing values *)
+(* the pair (value, errors) of the model against the result of the specification *)
+Definition vres_agree (r : option val * errs) (s : res val) : Prop :=
+  match snd r with
+  | [] => exists x, fst r = Some x /\ s = Ok x
+  | _ :: _ => exists e, s = Err e
+  end.
+Definition arg_agree (fv : field -> oval -> option val * errs) (sv : field -> oval -> res val)
+    (fld : field) (v : oval) : Prop :=
+  match v with
+  | OList sl => Forall (fun x => vres_agree (fv fld x) (sv fld x)) sl
+  | _ => vres_agree (fv fld v) (sv fld v)
+  end.
+
+Lemma app_nil_inv {A} (a b : list A) : a ++ b = [] -> a = [] /\ b = [].
+Proof. destruct a; cbn; [auto|discriminate]. Qed.
+
+Lemma list_loop_agree fv sv fld : forall sl m flag m' es,
+  Forall (fun x => vres_agree (fv fld x) (sv fld x)) sl ->
+  list_loop fv fld sl m flag = (m', es) ->
+  match es with
+  | [] => flag = [] /\ exists vs, map_res (sv fld) sl = Ok vs /\ fold_left (fun m x => mappend (fnum fld) x m) vs m = m'
+  | _ :: _ => flag <> [] \/ exists e, map_res (sv fld) sl = Err e
+  end.
+Proof.
+  induction sl as [|it r IH]; intros m flag m' es Hall H; cbn [list_loop] in H.
+  - inversion H; subst. destruct es; [split; [reflexivity|]; exists []; split; reflexivity|left; discriminate].
+  - inversion Hall as [|? ? Hit Hr]; subst. unfold vres_agree in Hit.
+    destruct (fv fld it) as [ov e] eqn:Ef. cbn [fst snd] in Hit. cbn [map_res].
+    destruct ov as [x|].
+    + specialize (IH _ _ _ _ Hr H). destruct es as [|e0 es'].
+      * destruct IH as [Hf [vs [Hm Hfold]]]. apply app_nil_inv in Hf. destruct Hf as [-> ->].
+        destruct Hit as [y [Hy Hs]]. inversion Hy; subst y. split; [reflexivity|].
+        exists (x :: vs). rewrite Hs, Hm. split; [reflexivity|exact Hfold].
+      * destruct flag as [|f0 fr]; [|left; discriminate]. right.
+        destruct e as [|e1 er].
+        -- destruct Hit as [y [Hy Hs]]. rewrite Hs. destruct IH as [Hbad|[e2 He2]]; [exfalso; apply Hbad; reflexivity|].
+           rewrite He2. eauto.
+        -- destruct Hit as [e2 He2]. rewrite He2. eauto.
+    + inversion H; subst. destruct e as [|e1 er].
+      * destruct Hit as [y [Hy _]]. discriminate.
+      * destruct Hit as [e2 He2]. destruct (flag ++ e1 :: er) eqn:Ea.
+        -- apply app_nil_inv in Ea. destruct Ea; discriminate.
+        -- destruct flag; [right; rewrite He2; eauto|left; discriminate].
+Qed.
+
+Lemma wf_rep_no_oneof fields fld m : field_wf fld = true -> frep fld = true -> oneof_conflict fields fld m = false.
+Proof.
+  unfold field_wf, oneof_conflict. intros H Hr. rewrite Hr in H. cbn in H.
+  destruct (foneof fld); [discriminate|reflexivity].
+Qed.
+
+(* setOptionField (through the aborting handler) = evaluate the occurrence, then store it *)
+Lemma set_field_agree fv sv fields m fld v m' es :
+  field_wf fld = true -> arg_agree fv sv fld v ->
+  set_option_field_with fv fields false m fld v = (m', es) ->
+  match es with
+  | [] => exists vs, spec_values_with sv fld v = Ok vs /\ spec_store fields fld vs m = Ok m'
+  | _ :: _ => (exists e, spec_values_with sv fld v = Err e) \/
+              (exists vs e, spec_values_with sv fld v = Ok vs /\ spec_store fields fld vs m = Err e)
+  end.
+Proof.
+  intros Hwf Ha H. unfold set_option_field_with in H.
+  assert (Hscalar : forall (Hnl : match v with OList _ => False | _ => True end),
+    vres_agree (fv fld v) (sv fld v) ->
+    (let '(ov, e) := fv fld v in
+     match ov with
+     | None => (m, e)
+     | Some x => if oneof_conflict fields fld m then (m, e ++ [EOneof])
+                 else if frep fld then (mappend (fnum fld) x m, e)
+                 else if has fld m then (m, e ++ [EAlreadySet]) else (mset (fnum fld) x m, e)
+     end) = (m', es) ->
+    match es with
+    | [] => exists vs, (match sv fld v with Ok x => Ok [x] | Err e => Err e end) = Ok vs /\ spec_store fields fld vs m = Ok m'
+    | _ :: _ => (exists e, (match sv fld v with Ok x => Ok [x] | Err e => Err e end) = Err e) \/
+                (exists vs e, (match sv fld v with Ok x => Ok [x] | Err e => Err e end) = Ok vs /\ spec_store fields fld vs m = Err e)
+    end).
+  { intros _ Hag Hr. unfold vres_agree in Hag. destruct (fv fld v) as [ov e]. cbn [fst snd] in Hag.
+    destruct e as [|e1 er].
+    - destruct Hag as [x [-> Hs]]. rewrite Hs. unfold spec_store.
+      destruct (frep fld) eqn:Er.
+      + rewrite (wf_rep_no_oneof _ _ _ Hwf Er) in Hr. inversion Hr; subst. exists [x]. split; reflexivity.
+      + destruct (oneof_conflict fields fld m).
+        * inversion Hr; subst. right. exists [x], EOneof. split; reflexivity.
+        * destruct (has fld m); inversion Hr; subst.
+          -- right. exists [x], EAlreadySet. split; reflexivity.
+          -- exists [x]. split; reflexivity.
+    - destruct Hag as [e2 He2]. rewrite He2.
+      assert (Hne : exists a b, es = a :: b).
+      { destruct ov; [|inversion Hr; eauto].
+        destruct (oneof_conflict fields fld m); [inversion Hr; cbn; eauto|].
+        destruct (frep fld); [inversion Hr; eauto|]. destruct (has fld m); inversion Hr; cbn; eauto. }
+      destruct Hne as [a [b ->]]. left. eauto. }
+  destruct v; cbn [arg_agree andb is_omsg] in *;
+    try (unfold spec_values_with; apply (Hscalar I Ha H)).
+  (* array literal *)
+  unfold spec_values_with. destruct (frep fld) eqn:Er; cbn [negb] in H.
+  - pose proof (list_loop_agree _ _ _ _ _ _ _ _ Ha H) as Hl. destruct es as [|e0 er].
+    + destruct Hl as [_ [vs [Hm Hf]]]. exists vs. split; [exact Hm|]. unfold spec_store. rewrite Er. f_equal. exact Hf.
+    + destruct Hl as [Hbad|[e He]]; [exfalso; apply Hbad; reflexivity|]. left. eauto.
+  - inversion H; subst. left. eauto.
+Qed.
+
+(* a foreign extension inside a literal always ends in an error *)
+Lemma set_field_foreign fv sv fields m fld v m' es :
+  arg_agree fv sv fld v -> set_option_field_with fv fields true m fld v = (m', es) -> es <> [].
+Proof.
+  intros Ha H. unfold set_option_field_with in H.
+  destruct v; cbn [arg_agree] in Ha;
+    try (cbn [andb orb] in H;
+         destruct (frep fld || (is_kmsg (fkind fld) && _)); [inversion H; discriminate|];
+         unfold vres_agree in Ha; destruct (fv fld _) as [ov e]; cbn [fst snd] in Ha;
+         destruct ov; [inversion H; subst; destruct e; discriminate|];
+         inversion H; subst; destruct es; [destruct Ha as [x [Hx _]]; discriminate|discriminate]).
+  destruct (negb (frep fld)); inversion H; discriminate.
+Qed.
+
+(* ================================================================== model = specification: message literals *)
+Section Literals.
+Variable sch : schema.
+Variable tt : N.
+Hypothesis Hwf : schema_wf sch = true.
+
+Lemma schema_wf_all : all_fields field_wf sch = true.
+Proof. exact Hwf. Qed.
+
+Lemma usage_target f : check_field_usage tt f = [] <-> target_ok tt f = true.
+Proof.
+  unfold check_field_usage, target_ok. destruct (ftargets f) as [|t ts]; [tauto|].
+  destruct (existsb (N.eqb tt) (t :: ts)); split; intros H; try reflexivity; discriminate.
+Qed.
+
+Lemma lit_field_spec md nm :
+  match lit_field sch md nm with
+  | Err x => spec_lit_field sch md nm = Err x
+  | Ok (f, false) => spec_lit_field sch md nm = Ok f /\ field_wf f = true
+  | Ok (f, true) => spec_lit_field sch md nm = Err EWrongExtendee
+  end.
+Proof.
+  destruct nm as [s|s]; cbn [lit_field spec_lit_field].
+  - destruct (field_by_name (msg_fields sch md) s) as [f|] eqn:E; [|reflexivity].
+    split; [reflexivity|]. apply (all_fields_msg field_wf sch md); [exact schema_wf_all|].
+    eapply field_by_name_In; eassumption.
+  - destruct (ext_by_name (sexts sch) s) as [x|] eqn:E; [|reflexivity].
+    destruct (Nat.eqb (xextendee x) md); cbn [negb]; [|reflexivity].
+    split; [reflexivity|]. apply (all_fields_ext field_wf sch); [exact schema_wf_all|].
+    eapply ext_by_name_In; eassumption.
+Qed.
+
+Lemma lit_loop_agree fv sv md : forall fs m had flag ov es,
+  Forall (fun p => forall f, arg_agree fv sv f (snd p)) fs ->
+  lit_loop sch tt fv md fs m had flag = (ov, es) ->
+  (had = true -> flag <> []) ->
+  match es with
+  | [] => flag = [] /\ exists m', ov = Some (VM m') /\ spec_lit_loop sch tt sv md fs m = Ok (VM m')
+  | _ :: _ => flag <> [] \/ exists e, spec_lit_loop sch tt sv md fs m = Err e
+  end.
+Proof.
+  induction fs as [|[nm fv1] r IH]; intros m had flag ov es Hall H Hhad; cbn [lit_loop] in H; cbn [spec_lit_loop].
+  - destruct had.
+    + inversion H; subst. specialize (Hhad eq_refl). destruct es; [congruence|left; discriminate].
+    + inversion H; subst. destruct es; [split; [reflexivity|]; eauto|left; discriminate].
+  - inversion Hall as [|? ? Hp Hr]; subst. cbn [snd] in Hp.
+    pose proof (lit_field_spec md nm) as Hlf.
+    destruct (lit_field sch md nm) as [[ffld foreign]|x].
+    + destruct (set_option_field_with fv (msg_fields sch md) foreign m ffld fv1) as [m1 e1] eqn:Es.
+      destruct foreign.
+      * (* extension of another message *)
+        pose proof (set_field_foreign _ _ _ _ _ _ _ _ (Hp ffld) Es) as Hne.
+        assert (Hfl : flag ++ check_field_usage tt ffld ++ e1 <> []).
+        { intros Hc. apply app_nil_inv in Hc. destruct Hc as [_ Hc]. apply app_nil_inv in Hc. destruct Hc; congruence. }
+        specialize (IH _ _ _ _ _ Hr H (fun _ => Hfl)). rewrite Hlf.
+        destruct es; [destruct IH; congruence|right; eauto].
+      * destruct Hlf as [Hlf Hfw]. rewrite Hlf.
+        pose proof (set_field_agree _ _ _ _ _ _ _ _ Hfw (Hp ffld) Es) as Hb.
+        assert (Hhad' : had = true -> flag ++ check_field_usage tt ffld ++ e1 <> []).
+        { intros Hh Hc. apply app_nil_inv in Hc. destruct Hc as [Hc _]. exact (Hhad Hh Hc). }
+        specialize (IH _ _ _ _ _ Hr H Hhad').
+        destruct es as [|e0 er].
+        -- destruct IH as [Hf [m2 [Hov Hsp]]]. apply app_nil_inv in Hf. destruct Hf as [-> Hf].
+           apply app_nil_inv in Hf. destruct Hf as [Hu ->]. apply usage_target in Hu. rewrite Hu. cbn [negb].
+           destruct Hb as [vs [Hv Hst]]. rewrite Hv, Hst. split; [reflexivity|]. eauto.
+        -- destruct flag as [|f0 fr]; [|left; discriminate]. right. cbn [app] in IH.
+           destruct (target_ok tt ffld) eqn:Et; cbn [negb]; [|eauto].
+           apply usage_target in Et. rewrite Et in IH. cbn [app] in IH.
+           destruct e1 as [|e1 e1r].
+           ++ destruct Hb as [vs [Hv Hst]]. rewrite Hv, Hst.
+              destruct IH as [Hbad|He]; [exfalso; apply Hbad; reflexivity|exact He].
+           ++ destruct Hb as [[e He]|[vs [e [Hv Hst]]]]; [rewrite He; eauto|rewrite Hv, Hst; eauto].
+    + rewrite Hlf.
+      assert (Hfl : flag ++ [x] <> []) by (destruct flag; discriminate).
+      specialize (IH _ _ _ _ _ Hr H (fun _ => Hfl)).
+      destruct es; [destruct IH; congruence|right; eauto].
+Qed.
+
+(* induction over option values that reaches the elements of nested lists *)
+Lemma oval_ind2 (P : oval -> Prop) :
+  (forall z, P (OInt z)) -> (forall n, P (OUint n)) -> (forall f, P (OFloat f)) -> (forall s, P (OIdent s)) ->
+  (forall s, P (OStr s)) ->
+  (forall fs, Forall (fun p => P (snd p)) fs -> P (OMsg fs)) ->
+  (forall es, Forall P es -> P (OList es)) ->
+  forall v, P v.
+Proof.
+  intros H1 H2 H3 H4 H5 HM HL.
+  fix IH 1. intros [z|n|f|s|s|fs|es]; [apply H1|apply H2|apply H3|apply H4|apply H5| |].
+  - apply HM. revert fs. fix IHl 1. intros [|p r]; constructor; [apply IH|apply IHl].
+  - apply HL. revert es. fix IHl 1. intros [|x r]; constructor; [apply IH|apply IHl].
+Qed.
+
+Definition value_agree (v : oval) : Prop :=
+  lexable_b v = true -> forall fld inlit, vres_agree (field_value sch tt fld v inlit) (spec_value sch tt fld v inlit).
+
+Lemma value_agree_arg v : value_agree v -> match v with OList sl => Forall value_agree sl | _ => True end ->
+  lexable_b v = true -> forall inlit f,
+  arg_agree (fun g x => field_value sch tt g x inlit) (fun g x => spec_value sch tt g x inlit) f v.
+Proof.
+  intros Hv Hl Hlex inlit f. destruct v; cbn [arg_agree]; try (apply Hv; exact Hlex).
+  cbn [lexable_b] in Hlex. rewrite forallb_forall in Hlex. rewrite Forall_forall in Hl |- *.
+  intros x Hx. apply (Hl x Hx). apply Hlex. exact Hx.
+Qed.
+
+Lemma value_agree_all : forall v, value_agree v /\ match v with OList sl => Forall value_agree sl | _ => True end.
+Proof.
+  apply oval_ind2.
+  1-5: (intros a; split; [|exact I]; intros Hlex fld inlit; unfold vres_agree).
+  - (* OInt *) cbn [field_value spec_value]. destruct (fkind fld) eqn:Ek;
+      try (rewrite (scalar_eq_spec _ (OInt a) inlit (lexable_b_lexable _ Hlex));
+           destruct (spec_scalar _ (OInt a) inlit); cbn; eauto).
+    + destruct (nth_error (senums sch) e); [|cbn; eauto].
+      rewrite (enum_eq_spec _ (OInt a) inlit (lexable_b_lexable _ Hlex)). destruct (spec_enum _ _ _); cbn; eauto.
+    + cbn. eauto.
+  - (* OUint *) cbn [field_value spec_value]. destruct (fkind fld) eqn:Ek;
+      try (rewrite (scalar_eq_spec _ (OUint a) inlit (lexable_b_lexable _ Hlex));
+           destruct (spec_scalar _ (OUint a) inlit); cbn; eauto).
+    + destruct (nth_error (senums sch) e); [|cbn; eauto].
+      rewrite (enum_eq_spec _ (OUint a) inlit (lexable_b_lexable _ Hlex)). destruct (spec_enum _ _ _); cbn; eauto.
+    + cbn. eauto.
+  - (* OFloat *) cbn [field_value spec_value]. destruct (fkind fld) eqn:Ek;
+      try (rewrite (scalar_eq_spec _ (OFloat a) inlit I); destruct (spec_scalar _ (OFloat a) inlit); cbn; eauto).
+    + destruct (nth_error (senums sch) e); [|cbn; eauto].
+      rewrite (enum_eq_spec _ (OFloat a) inlit I). destruct (spec_enum _ _ _); cbn; eauto.
+    + cbn. eauto.
+  - (* OIdent *) cbn [field_value spec_value]. destruct (fkind fld) eqn:Ek;
+      try (rewrite (scalar_eq_spec _ (OIdent a) inlit I); destruct (spec_scalar _ (OIdent a) inlit); cbn; eauto).
+    + destruct (nth_error (senums sch) e); [|cbn; eauto].
+      rewrite (enum_eq_spec _ (OIdent a) inlit I). destruct (spec_enum _ _ _); cbn; eauto.
+    + cbn. eauto.
+  - (* OStr *) cbn [field_value spec_value]. destruct (fkind fld) eqn:Ek;
+      try (rewrite (scalar_eq_spec _ (OStr a) inlit I); destruct (spec_scalar _ (OStr a) inlit); cbn; eauto).
+    + destruct (nth_error (senums sch) e); [|cbn; eauto].
+      rewrite (enum_eq_spec _ (OStr a) inlit I). destruct (spec_enum _ _ _); cbn; eauto.
+    + cbn. eauto.
+  - (* OMsg *) intros fs IHfs. split; [|exact I]. intros Hlex fld inlit. unfold vres_agree.
+    cbn [field_value spec_value]. destruct (fkind fld) eqn:Ek;
+      try (rewrite (scalar_eq_spec _ (OMsg fs) inlit I); destruct (spec_scalar _ (OMsg fs) inlit); cbn; eauto).
+    + destruct (nth_error (senums sch) e); [|cbn; eauto].
+      rewrite (enum_eq_spec _ (OMsg fs) inlit I). destruct (spec_enum _ _ _); cbn; eauto.
+    + destruct (lit_loop sch tt (fun f x => field_value sch tt f x true) m fs [] false []) as [ov es] eqn:El.
+      assert (Hall : Forall (fun p => forall f, arg_agree (fun g x => field_value sch tt g x true)
+                                                       (fun g x => spec_value sch tt g x true) f (snd p)) fs).
+      { cbn [lexable_b] in Hlex. rewrite forallb_forall in Hlex. rewrite Forall_forall in IHfs |- *.
+        intros p Hp f. destruct (IHfs p Hp) as [Hv Hl]. apply value_agree_arg; auto. }
+      pose proof (lit_loop_agree _ _ _ _ _ _ _ _ _ Hall El (fun H => match Bool.diff_false_true H with end)) as Hr.
+      cbn [fst snd]. destruct es as [|e0 er].
+      * destruct Hr as [_ [m' [-> Hs]]]. eauto.
+      * destruct Hr as [Hbad|He]; [exfalso; apply Hbad; reflexivity|exact He].
+  - (* OList *) intros es IHes. split.
+    + intros Hlex fld inlit. unfold vres_agree. cbn [field_value spec_value]. destruct (fkind fld) eqn:Ek;
+        try (rewrite (scalar_eq_spec _ (OList es) inlit I); destruct (spec_scalar _ (OList es) inlit); cbn; eauto).
+      * destruct (nth_error (senums sch) e); [|cbn; eauto].
+        rewrite (enum_eq_spec _ (OList es) inlit I). destruct (spec_enum _ _ _); cbn; eauto.
+      * cbn. eauto.
+    + rewrite Forall_forall in IHes |- *. intros x Hx. apply (IHes x Hx).
+Qed.
+
+Lemma stmt_value_agree v inlit f : lexable_b v = true ->
+  arg_agree (fun g x => field_value sch tt g x inlit) (fun g x => spec_value sch tt g x inlit) f v.
+Proof. intros H. destruct (value_agree_all v) as [Hv Hl]. apply value_agree_arg; assumption. Qed.
+End Literals.
+
+(* ================================================================== model = specification: statements *)
+Section Statements.
+Variable sch : schema.
+Variable tt : N.
+Hypothesis Hwf : schema_wf sch = true.
+Hypothesis Hex : schema_explicit sch = true.
+
+Definition spec_from (md : nat) (m : mval) (name : list npart) (v : oval) : res mval :=
+  match resolve_path sch md name with
+  | Err x => Err x
+  | Ok (inter, (lmd, leaf)) =>
+    if negb (forallb (fun p => target_ok tt (snd p)) inter && target_ok tt leaf) then Err ETargetType
+    else
+      match path_conflict sch inter lmd leaf m with
+      | Some x => Err x
+      | None =>
+        match spec_values_with (fun g x => spec_value sch tt g x false) leaf v with
+        | Err x => Err x
+        | Ok vs => Ok (merge_along inter leaf vs m)
+        end
+      end
+  end.
+
+Lemma spec_stmt_from T m st : spec_stmt sch tt T m st = spec_from T m (sname st) (svalue st).
+Proof. reflexivity. Qed.
+
+Lemma explicit_has f m : fimplicit f = false -> has f m = present (fnum f) m.
+Proof. unfold has, present. intros ->. destruct (mget (fnum f) m); reflexivity. Qed.
+
+Lemma lookup_wf md nm f : lookup_part sch md nm = Ok f -> field_wf f = true.
+Proof. apply all_fields_lookup. exact Hwf. Qed.
+Lemma lookup_explicit md nm f : lookup_part sch md nm = Ok f -> fimplicit f = false.
+Proof.
+  intros H. pose proof (all_fields_lookup field_explicit sch md nm f Hex H) as He.
+  unfold field_explicit in He. destruct (fimplicit f); [discriminate|reflexivity].
+Qed.
+
+Lemma absent_sub_at n m : present n m = false -> sub_at n m = [].
+Proof. unfold present, sub_at. destruct (mget n m); [discriminate|reflexivity]. Qed.
+
+Lemma spec_values_single sv fld v vs :
+  spec_values_with sv fld v = Ok vs -> frep fld = false -> exists x, vs = [x].
+Proof.
+  unfold spec_values_with. intros H Hr.
+  destruct v; try (destruct (sv fld _); inversion H; eauto).
+  rewrite Hr in H. discriminate.
+Qed.
+
+(* the leaf: storing through reflection = conflict test on the path end + put *)
+Lemma store_conflict md fld vs m :
+  field_wf fld = true -> fimplicit fld = false -> (frep fld = false -> exists x, vs = [x]) ->
+  spec_store (msg_fields sch md) fld vs m =
+  match path_conflict sch [] md fld m with Some x => Err x | None => Ok (put fld vs m) end.
+Proof.
+  intros Hw Hi Hs. unfold spec_store, put. cbn [path_conflict]. destruct (frep fld) eqn:Er.
+  - rewrite (wf_rep_no_oneof _ _ _ Hw Er). reflexivity.
+  - destruct (Hs eq_refl) as [x ->]. cbn [negb andb].
+    destruct (oneof_conflict (msg_fields sch md) fld m); [reflexivity|].
+    rewrite (explicit_has _ _ Hi). destruct (present (fnum fld) m); reflexivity.
+Qed.
+
+Lemma resolve_path_cons2 md nm nm2 rest :
+  resolve_path sch md (nm :: nm2 :: rest) =
+  match lookup_part sch md nm with
+  | Err x => Err x
+  | Ok fld =>
+    match fkind fld with
+    | KMsg sub =>
+      if frep fld then Err EPathRepeated
+      else match resolve_path sch sub (nm2 :: rest) with
+           | Err x => Err x
+           | Ok (inter, leaf) => Ok ((md, fld) :: inter, leaf)
+           end
+    | _ => Err EPathNotMessage
+    end
+  end.
+Proof. reflexivity. Qed.
+
+(* one more name part in front *)
+Lemma spec_from_cons md m nm nm2 rest v fld sub :
+  lookup_part sch md nm = Ok fld -> fkind fld = KMsg sub -> frep fld = false ->
+  forall m', spec_from md m (nm :: nm2 :: rest) v = Ok m' <->
+    target_ok tt fld = true /\
+    (present (fnum fld) m = true \/ oneof_conflict (msg_fields sch md) fld m = false) /\
+    exists s, spec_from sub (sub_at (fnum fld) m) (nm2 :: rest) v = Ok s /\ m' = mset (fnum fld) (VM s) m.
+Proof.
+  intros Hl Hk Hr m'. unfold spec_from. rewrite resolve_path_cons2. rewrite Hl, Hk, Hr.
+  destruct (resolve_path sch sub (nm2 :: rest)) as [[inter [lmd leaf]]|x].
+  2:{ split; [discriminate|]. intros [_ [_ [s [Hs _]]]]. discriminate. }
+  cbn [forallb snd path_conflict merge_along].
+  destruct (target_ok tt fld); cbn [andb].
+  2:{ cbn [negb]. split; [discriminate|]. intros [Ht _]. discriminate. }
+  destruct (forallb (fun p => target_ok tt (snd p)) inter && target_ok tt leaf); cbn [negb].
+  2:{ split; [discriminate|]. intros [_ [_ [s [Hs _]]]]. discriminate. }
+  destruct (present (fnum fld) m); cbn [negb andb].
+  - destruct (path_conflict sch inter lmd leaf (sub_at (fnum fld) m)).
+    + split; [discriminate|]. intros [_ [_ [s [Hs _]]]]. discriminate.
+    + destruct (spec_values_with _ leaf v) as [vs|x].
+      * split; [intros H; inversion H; subst; split; [reflexivity|]; split; [auto|]; eauto|].
+        intros [_ [_ [s [Hs ->]]]]. inversion Hs; subst. reflexivity.
+      * split; [discriminate|]. intros [_ [_ [s [Hs _]]]]. discriminate.
+  - destruct (oneof_conflict (msg_fields sch md) fld m).
+    + split; [discriminate|]. intros [_ [[Hc|Hc] _]]; discriminate.
+    + destruct (path_conflict sch inter lmd leaf (sub_at (fnum fld) m)).
+      * split; [discriminate|]. intros [_ [_ [s [Hs _]]]]. discriminate.
+      * destruct (spec_values_with _ leaf v) as [vs|x].
+        -- split; [intros H; inversion H; subst; split; [reflexivity|]; split; [auto|]; eauto|].
+           intros [_ [_ [s [Hs ->]]]]. inversion Hs; subst. reflexivity.
+        -- split; [discriminate|]. intros [_ [_ [s [Hs _]]]]. discriminate.
+Qed.
+
+Lemma res_ok_or_err {A} (r : res A) : (exists a, r = Ok a) \/ (exists e, r = Err e).
+Proof. destruct r; eauto. Qed.
+
+Lemma interpret_field_agree v : lexable_b v = true ->
+  forall name md m m' es,
+  interpret_field sch tt md m name v = (m', es) ->
+  match es with
+  | [] => spec_from md m name v = Ok m'
+  | _ :: _ => exists e, spec_from md m name v = Err e
+  end.
+Proof.
+  intros Hlex. induction name as [|nm rest IH]; intros md m m' es H; cbn [interpret_field] in H.
+  - inversion H; subst. unfold spec_from. cbn. eauto.
+  - destruct (lookup_part sch md nm) as [fld|x] eqn:El.
+    2:{ inversion H; subst. unfold spec_from. cbn [resolve_path]. rewrite El. eauto. }
+    pose proof (lookup_wf _ _ _ El) as Hfw. pose proof (lookup_explicit _ _ _ El) as Hfe.
+    destruct rest as [|nm2 rest2].
+    + (* the last part *)
+      destruct (set_option_field sch tt (msg_fields sch md) m fld v false) as [m2 e2] eqn:Es.
+      inversion H; subst m' es. clear H. unfold set_option_field in Es.
+      pose proof (set_field_agree _ _ _ _ _ _ _ _ Hfw (stmt_value_agree sch tt Hwf v false fld Hlex) Es) as Hb.
+      unfold spec_from. cbn [resolve_path]. rewrite El. cbn [forallb andb].
+      destruct (target_ok tt fld) eqn:Et; cbn [negb].
+      2:{ assert (Hu : check_field_usage tt fld <> []).
+          { intros Hc. apply usage_target in Hc. congruence. }
+          destruct (check_field_usage tt fld); [congruence|]. cbn [app]. eauto. }
+      apply usage_target in Et. rewrite Et. cbn [app].
+      destruct e2 as [|e0 er].
+      * destruct Hb as [vs [Hv Hst]]. rewrite Hv.
+        rewrite (store_conflict md fld vs m Hfw Hfe) in Hst.
+        2:{ intros Hr. eapply spec_values_single; eassumption. }
+        destruct (path_conflict sch [] md fld m); [discriminate|]. cbn [merge_along]. exact Hst.
+      * destruct Hb as [[e He]|[vs [e [Hv Hst]]]].
+        -- rewrite He. destruct (path_conflict sch [] md fld m); eauto.
+        -- rewrite Hv. rewrite (store_conflict md fld vs m Hfw Hfe) in Hst.
+           2:{ intros Hr. eapply spec_values_single; eassumption. }
+           destruct (path_conflict sch [] md fld m); [eauto|discriminate].
+    + (* an intermediate part *)
+      destruct (fkind fld) as [| | | | | | | | | | | | | | | |sub] eqn:Ek;
+        try solve [inversion H; subst; destruct (check_field_usage tt fld); cbn [app];
+                   unfold spec_from; rewrite resolve_path_cons2, El, Ek; eauto].
+      destruct (frep fld) eqn:Er.
+      { inversion H; subst. destruct (check_field_usage tt fld); cbn [app];
+          unfold spec_from; rewrite resolve_path_cons2, El, Ek, Er; eauto. }
+      pose proof (spec_from_cons md m nm nm2 rest2 v fld sub El Ek Er) as Hc.
+      rewrite (explicit_has _ _ Hfe) in H.
+      assert (Hstep : forall s' e', interpret_field sch tt sub (sub_at (fnum fld) m) (nm2 :: rest2) v = (s', e') ->
+                (present (fnum fld) m = true \/ oneof_conflict (msg_fields sch md) fld m = false) ->
+                match check_field_usage tt fld ++ e' with
+                | [] => spec_from md m (nm :: nm2 :: rest2) v = Ok (mset (fnum fld) (VM s') m)
+                | _ :: _ => exists e, spec_from md m (nm :: nm2 :: rest2) v = Err e
+                end).
+      { intros s' e' Hi Hpc. specialize (IH _ _ _ _ Hi).
+        destruct (check_field_usage tt fld) as [|u ur] eqn:Eu.
+        - apply usage_target in Eu. cbn [app]. destruct e' as [|e0 er].
+          + apply Hc. split; [exact Eu|]. split; [exact Hpc|]. eauto.
+          + destruct (res_ok_or_err (spec_from md m (nm :: nm2 :: rest2) v)) as [[a Ha]|He]; [|exact He].
+            apply Hc in Ha. destruct Ha as [_ [_ [s [Hs _]]]]. destruct IH as [e He]. congruence.
+        - cbn [app]. destruct (res_ok_or_err (spec_from md m (nm :: nm2 :: rest2) v)) as [[a Ha]|He]; [|exact He].
+          apply Hc in Ha. destruct Ha as [Ht _]. apply usage_target in Ht. congruence. }
+      destruct (present (fnum fld) m) eqn:Ep.
+      * destruct (interpret_field sch tt sub (sub_at (fnum fld) m) (nm2 :: rest2) v) as [s' e'] eqn:Ei.
+        inversion H; subst. apply Hstep; auto.
+      * destruct (oneof_conflict (msg_fields sch md) fld m) eqn:Eo.
+        -- injection H as Hm He. subst m' es.
+           assert (Hne : exists a b, check_field_usage tt fld ++ [EOneof] = a :: b)
+             by (destruct (check_field_usage tt fld); cbn; eauto).
+           destruct Hne as [a [b ->]].
+           destruct (res_ok_or_err (spec_from md m (nm :: nm2 :: rest2) v)) as [[a' Ha]|He]; [|exact He].
+           apply Hc in Ha. destruct Ha as [_ [[Hp|Hp] _]]; congruence.
+        -- rewrite <- (absent_sub_at _ _ Ep) in H.
+           destruct (interpret_field sch tt sub (sub_at (fnum fld) m) (nm2 :: rest2) v) as [s' e'] eqn:Ei.
+           inversion H; subst. apply Hstep; auto.
+Qed.
+End Statements.
+
+(* ================================================================== model = specification: the run *)
+Section Run.
+Variable sch : schema.
+Variable tt : N.
+Hypothesis Hwf : schema_wf sch = true.
+Hypothesis Hex : schema_explicit sch = true.
+
+Definition this_phase (c : bool) (st : stmt) : bool := Bool.eqb (is_custom st) c.
+
+Lemma pass_strict_spec c T : forall uo m,
+  stmts_lexable uo = true ->
+  match pass_strict sch tt c T m uo with
+  | Ok (m', _) => spec_fold sch tt T m (filter (this_phase c) uo) = Ok m'
+  | Err _ => exists e, spec_fold sch tt T m (filter (this_phase c) uo) = Err e
+  end.
+Proof.
+  induction uo as [|st r IH]; intros m Hl; cbn [pass_strict filter].
+  - reflexivity.
+  - cbn [stmts_lexable forallb] in Hl. apply andb_prop in Hl. destruct Hl as [Hst Hr].
+    change (Bool.eqb (is_custom st) c) with (this_phase c st). destruct (this_phase c st); cbn [negb].
+    + destruct (interpret_field sch tt T m (sname st) (svalue st)) as [m1 es] eqn:Ei.
+      pose proof (interpret_field_agree sch tt Hwf Hex _ Hst _ _ _ _ _ Ei) as Ha.
+      cbn [spec_fold]. rewrite spec_stmt_from. destruct es as [|e0 er].
+      * rewrite Ha. apply IH. exact Hr.
+      * destruct Ha as [e He]. rewrite He. eauto.
+    + specialize (IH m Hr). destruct (pass_strict sch tt c T m r) as [[m2 rem2]|x]; exact IH.
+Qed.
+
+Lemma spec_fold_app T : forall a b m,
+  spec_fold sch tt T m (a ++ b) =
+  match spec_fold sch tt T m a with Ok m1 => spec_fold sch tt T m1 b | Err x => Err x end.
+Proof.
+  induction a as [|st r IH]; intros b m; cbn [app spec_fold]; [reflexivity|].
+  destruct (spec_stmt sch tt T m st); [apply IH|reflexivity].
+Qed.
+
+Lemma filter_filter_same {A} (f : A -> bool) l : filter f (filter f l) = filter f l.
+Proof.
+  induction l as [|a r IH]; [reflexivity|]. cbn [filter]. destruct (f a) eqn:E; [|exact IH].
+  cbn [filter]. rewrite E, IH. reflexivity.
+Qed.
+
+Lemma stmts_lexable_filter f l : stmts_lexable l = true -> stmts_lexable (filter f l) = true.
+Proof.
+  unfold stmts_lexable. rewrite !forallb_forall. intros H x Hx. apply filter_In in Hx. apply H. tauto.
+Qed.
+
+(* C20: the strict run and protoc's interpretation end in the same options message, or both reject *)
+Lemma interpret_eq_protoc_partial_lemma T m0 stmts :
+  stmts_lexable stmts = true ->
+  same_outcome (interpret_strict sch tt T m0 stmts) (protoc_interpret sch tt T m0 stmts).
+Proof.
+  intros Hl. unfold interpret_strict, protoc_interpret. rewrite spec_fold_app.
+  pose proof (pass_strict_spec false T stmts m0 Hl) as H1.
+  assert (Ef1 : filter (this_phase false) stmts = filter (fun st => negb (is_custom st)) stmts).
+  { apply filter_ext. intros st. unfold this_phase. destruct (is_custom st); reflexivity. }
+  rewrite Ef1 in H1.
+  destruct (pass_strict sch tt false T m0 stmts) as [[m1 r1]|x] eqn:E1.
+  - rewrite H1. pose proof (pass_strict_remain _ _ _ _ _ _ _ _ E1) as Hr1.
+    assert (Er1 : r1 = filter is_custom stmts).
+    { rewrite Hr1. apply filter_ext. intros st. unfold other_phase. destruct (is_custom st); reflexivity. }
+    subst r1. rewrite Er1.
+    pose proof (pass_strict_spec true T (filter is_custom stmts) m1 (stmts_lexable_filter _ _ Hl)) as H2.
+    assert (Ef2 : filter (this_phase true) (filter is_custom stmts) = filter is_custom stmts).
+    { rewrite <- (filter_filter_same is_custom stmts) at 2. apply filter_ext. intros st. unfold this_phase.
+      destruct (is_custom st); reflexivity. }
+    rewrite Ef2 in H2.
+    destruct (pass_strict sch tt true T m1 (filter is_custom stmts)) as [[m2 r2]|x].
+    + rewrite H2. reflexivity.
+    + destruct H2 as [e He]. rewrite He. exact I.
+  - destruct H1 as [e He]. rewrite He. exact I.
+Qed.
+End Run.
+
+(* The code as it is, on a schema with a proto3 field without presence: setting the zero value does not
+   count as set, so a second statement for the same field is accepted; protoc rejects it. *)
+Definition ip_schema : schema :=
+  mkSchema [mkMsg []; mkMsg [mkField "a" 1%N KInt32 false None true []]] []
+           [mkExt "foo" 0%nat (mkField "foo" 50001%N (KMsg 1) false None false [])].
+Definition ip_stmts : list stmt :=
+  [mkStmt [PExt "foo"; PField "a"] (OUint 0); mkStmt [PExt "foo"; PField "a"] (OUint 5)].
+
+Lemma interpret_eq_protoc_refuted_lemma :
+  exists sch tt T stmts,
+    schema_wf sch = true /\ stmts_lexable stmts = true /\
+    ~ same_outcome (interpret_strict sch tt T [] stmts) (protoc_interpret sch tt T [] stmts).
+Proof.
+  exists ip_schema, 3%N, 0%nat, ip_stmts. split; [reflexivity|]. split; [reflexivity|].
+  vm_compute. exact (fun H => H).
+Qed.
+
+(* ================================================================== unlinked interpretation *)
+(* Transfer of a successful interpretation between two schemas that have the same messages and enums and
+   agree on the lookups the statement makes. *)
+Section Transfer.
+Variables schA schB : schema.
+Variable tt : N.
+Hypothesis Hmsgs : smsgs schA = smsgs schB.
+Hypothesis Henums : senums schA = senums schB.
+Variable okl : lname -> bool.
+Variable okp : npart -> bool.
+Hypothesis Hokl : forall nm md r, okl nm = true -> lit_field schA md nm = Ok r -> lit_field schB md nm = Ok r.
+Hypothesis Hokp : forall nm md f, okp nm = true -> lookup_part schA md nm = Ok f -> lookup_part schB md nm = Ok f.
+
+Fixpoint names_ok (v : oval) : bool :=
+  match v with
+  | OMsg fs => forallb (fun p => okl (fst p) && names_ok (snd p)) fs
+  | OList es => forallb names_ok es
+  | _ => true
+  end.
+
+Lemma msg_fields_AB md : msg_fields schA md = msg_fields schB md.
+Proof. unfold msg_fields. rewrite Hmsgs. reflexivity. Qed.
+
+Definition fv_transfer (fvA fvB : field -> oval -> option val * errs) (f : field) (x : oval) : Prop :=
+  forall ov, fvA f x = (ov, []) -> fvB f x = (ov, []).
+
+Definition arg_transfer (fvA fvB : field -> oval -> option val * errs) (f : field) (v : oval) : Prop :=
+  match v with OList sl => Forall (fv_transfer fvA fvB f) sl | _ => fv_transfer fvA fvB f v end.
+
+Lemma list_loop_transfer fvA fvB fld : forall sl m flag m',
+  Forall (fv_transfer fvA fvB fld) sl ->
+  list_loop fvA fld sl m flag = (m', []) -> list_loop fvB fld sl m flag = (m', []).
+Proof.
+  induction sl as [|it r IH]; intros m flag m' Hall H; cbn [list_loop] in *; [exact H|].
+  inversion Hall as [|? ? Hit Hr]; subst.
+  assert (Hflag : forall mm ff mm', list_loop fvA fld r mm ff = (mm', []) -> ff = []).
+  { clear. induction r as [|x r IHr]; intros mm ff mm' H; cbn [list_loop] in H; [inversion H; reflexivity|].
+    destruct (fvA fld x) as [ov e]. destruct ov; [|injection H as _ He; apply app_nil_inv in He; tauto].
+    apply IHr in H. apply app_nil_inv in H. tauto. }
+  destruct (fvA fld it) as [ov e] eqn:Ef. destruct ov as [x|].
+  - pose proof (Hflag _ _ _ H) as He. apply app_nil_inv in He. destruct He as [-> ->].
+    rewrite (Hit _ Ef). cbn [app]. apply IH; assumption.
+  - injection H as Hm He. apply app_nil_inv in He. destruct He as [-> ->].
+    rewrite (Hit _ Ef). subst m'. reflexivity.
+Qed.
+
+Lemma set_field_transfer fvA fvB fields foreign m fld v m' :
+  arg_transfer fvA fvB fld v ->
+  set_option_field_with fvA fields foreign m fld v = (m', []) ->
+  set_option_field_with fvB fields foreign m fld v = (m', []).
+Proof.
+  intros Ht H. unfold set_option_field_with, arg_transfer in *.
+  destruct v;
+    try (destruct (foreign && _); [discriminate|];
+         destruct (fvA fld _) as [ov e] eqn:Ef;
+         assert (He : e = []) by
+           (destruct ov; [|inversion H; reflexivity];
+            destruct foreign; [injection H as _ Hx; apply app_nil_inv in Hx; destruct Hx; discriminate|];
+            destruct (oneof_conflict fields fld m); [injection H as _ Hx; apply app_nil_inv in Hx; destruct Hx; discriminate|];
+            destruct (frep fld); [inversion H; reflexivity|];
+            destruct (has fld m); [injection H as _ Hx; apply app_nil_inv in Hx; destruct Hx; discriminate|inversion H; reflexivity]);
+         subst e; rewrite (Ht _ Ef); exact H).
+  destruct (negb (frep fld)); [discriminate|]. destruct foreign; [discriminate|].
+  apply (list_loop_transfer fvA fvB); assumption.
+Qed.
+
+Lemma lit_loop_flag sch fv md : forall fs m had flag ov,
+  lit_loop sch tt fv md fs m had flag = (ov, []) -> flag = [].
+Proof.
+  induction fs as [|[nm fv1] r IH]; intros m had flag ov H; cbn [lit_loop] in H.
+  - destruct had; inversion H; reflexivity.
+  - destruct (lit_field sch md nm) as [[ffld foreign]|x].
+    + destruct (set_option_field_with fv (msg_fields sch md) foreign m ffld fv1) as [m1 e1].
+      apply IH in H. apply app_nil_inv in H. tauto.
+    + apply IH in H. apply app_nil_inv in H. destruct H; discriminate.
+Qed.
+
+Lemma lit_loop_transfer fvA fvB md : forall fs m had flag ov,
+  Forall (fun p => okl (fst p) = true /\ forall f, arg_transfer fvA fvB f (snd p)) fs ->
+  lit_loop schA tt fvA md fs m had flag = (ov, []) ->
+  lit_loop schB tt fvB md fs m had flag = (ov, []).
+Proof.
+  induction fs as [|[nm fv1] r IH]; intros m had flag ov Hall H; cbn [lit_loop] in *; [exact H|].
+  inversion Hall as [|? ? [Hn Hp] Hr]; subst. cbn [fst snd] in Hn, Hp.
+  destruct (lit_field schA md nm) as [[ffld foreign]|x] eqn:El.
+  - rewrite (Hokl _ _ _ Hn El). rewrite <- msg_fields_AB.
+    destruct (set_option_field_with fvA (msg_fields schA md) foreign m ffld fv1) as [m1 e1] eqn:Es.
+    pose proof (lit_loop_flag _ _ _ _ _ _ _ _ H) as Hf. apply app_nil_inv in Hf. destruct Hf as [-> Hf].
+    apply app_nil_inv in Hf. destruct Hf as [Hu ->].
+    rewrite (set_field_transfer fvA fvB _ _ _ ffld fv1 _ (Hp ffld) Es). apply IH; assumption.
+  - pose proof (lit_loop_flag _ _ _ _ _ _ _ _ H) as Hf. apply app_nil_inv in Hf. destruct Hf; discriminate.
+Qed.
+
+Definition value_transfer (v : oval) : Prop :=
+  names_ok v = true -> forall fld inlit,
+  fv_transfer (fun f x => field_value schA tt f x inlit) (fun f x => field_value schB tt f x inlit) fld v.
+
+Lemma value_transfer_all : forall v, value_transfer v /\ match v with OList sl => Forall value_transfer sl | _ => True end.
+Proof.
+  apply oval_ind2.
+  1-5: (intros a; split; [|exact I]; intros _ fld inlit ov; cbn [field_value]; rewrite Henums; exact (fun H => H)).
+  - intros fs IHfs. split; [|exact I]. intros Hn fld inlit ov. cbn [field_value]. rewrite Henums.
+    destruct (fkind fld); try exact (fun H => H).
+    apply lit_loop_transfer. cbn [names_ok] in Hn. rewrite forallb_forall in Hn.
+    rewrite Forall_forall in IHfs |- *. intros p Hp. specialize (Hn p Hp). apply andb_prop in Hn.
+    destruct Hn as [Hn1 Hn2]. split; [exact Hn1|]. intros f. destruct (IHfs p Hp) as [Hv Hl].
+    unfold arg_transfer. destruct (snd p) eqn:Esp; try (apply Hv; exact Hn2).
+    cbn [names_ok] in Hn2. rewrite forallb_forall in Hn2. rewrite Forall_forall in Hl |- *.
+    intros x Hx. apply (Hl x Hx). apply Hn2. exact Hx.
+  - intros es IHes. split.
+    + intros _ fld inlit ov. cbn [field_value]. rewrite Henums. exact (fun H => H).
+    + rewrite Forall_forall in IHes |- *. intros x Hx. apply (IHes x Hx).
+Qed.
+
+Lemma stmt_value_transfer v f inlit : names_ok v = true ->
+  arg_transfer (fun g x => field_value schA tt g x inlit) (fun g x => field_value schB tt g x inlit) f v.
+Proof.
+  intros Hv. unfold arg_transfer. destruct (value_transfer_all v) as [Hv1 Hv2].
+  destruct v; try (apply Hv1; exact Hv).
+  cbn [names_ok] in Hv. rewrite forallb_forall in Hv. rewrite Forall_forall in Hv2 |- *.
+  intros x Hx. apply (Hv2 x Hx). apply Hv. exact Hx.
+Qed.
+
+Lemma interpret_field_transfer v : names_ok v = true ->
+  forall name md m m', forallb okp name = true ->
+  interpret_field schA tt md m name v = (m', []) -> interpret_field schB tt md m name v = (m', []).
+Proof.
+  intros Hv. induction name as [|nm rest IH]; intros md m m' Hn H; cbn [interpret_field] in *; [exact H|].
+  cbn [forallb] in Hn. apply andb_prop in Hn. destruct Hn as [Hn1 Hn2].
+  destruct (lookup_part schA md nm) as [fld|x] eqn:El; [|discriminate].
+  rewrite (Hokp _ _ _ Hn1 El). rewrite <- msg_fields_AB.
+  destruct rest as [|nm2 rest2].
+  - destruct (set_option_field schA tt (msg_fields schA md) m fld v false) as [m2 e2] eqn:Es.
+    injection H as Hm He. apply app_nil_inv in He. destruct He as [Hu ->]. subst m2.
+    unfold set_option_field in *.
+    rewrite (set_field_transfer _ _ _ _ _ _ _ _ (stmt_value_transfer v fld false Hv) Es).
+    rewrite Hu. reflexivity.
+  - destruct (fkind fld); try (injection H as _ He; apply app_nil_inv in He; destruct He; discriminate).
+    destruct (frep fld); [injection H as _ He; apply app_nil_inv in He; destruct He; discriminate|].
+    destruct (has fld m).
+    + destruct (interpret_field schA tt m0 (sub_at (fnum fld) m) (nm2 :: rest2) v) as [s' e'] eqn:Ei.
+      injection H as Hm He. apply app_nil_inv in He. destruct He as [Hu ->].
+      rewrite (IH _ _ _ Hn2 Ei). rewrite Hu. subst m'. reflexivity.
+    + destruct (oneof_conflict (msg_fields schA md) fld m);
+        [injection H as _ He; apply app_nil_inv in He; destruct He; discriminate|].
+      destruct (interpret_field schA tt m0 [] (nm2 :: rest2) v) as [s' e'] eqn:Ei.
+      injection H as Hm He. apply app_nil_inv in He. destruct He as [Hu ->].
+      rewrite (IH _ _ _ Hn2 Ei). rewrite Hu. subst m'. reflexivity.
+Qed.
+End Transfer.
+
+Lemma names_ok_true okl : (forall n, okl n = true) -> forall v, names_ok okl v = true.
+Proof.
+  intros Hok. apply oval_ind2; try reflexivity.
+  - intros fs IH. cbn [names_ok]. apply forallb_forall. rewrite Forall_forall in IH.
+    intros p Hp. rewrite Hok, (IH p Hp). reflexivity.
+  - intros es IH. cbn [names_ok]. apply forallb_forall. rewrite Forall_forall in IH. exact IH.
+Qed.
+
+Lemma names_ok_ext_free : forall v, value_ext_free v = true -> names_ok lname_is_field v = true.
+Proof.
+  apply (oval_ind2 (fun v => value_ext_free v = true -> names_ok lname_is_field v = true)).
+  1-5: (intros; reflexivity).
+  - intros fs IH. cbn [names_ok value_ext_free]. intros H. apply forallb_forall.
+    rewrite forallb_forall in H. rewrite Forall_forall in IH.
+    intros p Hp. specialize (H p Hp). apply andb_prop in H. destruct H as [H1 H2].
+    rewrite H1, (IH p Hp H2). reflexivity.
+  - intros es IH. cbn [names_ok value_ext_free]. intros H. apply forallb_forall.
+    rewrite forallb_forall in H. rewrite Forall_forall in IH.
+    intros x Hx. apply (IH x Hx). apply H. exact Hx.
+Qed.
+
+Lemma msg_fields_no_exts sch md : msg_fields (no_exts sch) md = msg_fields sch md.
+Proof. reflexivity. Qed.
+
+(* C21, per statement: whatever unlinked interpretation does interpret, linked interpretation of the same
+   statement in the same message interprets to the same result *)
+Lemma unlinked_statement_lemma sch tt T m name v m' :
+  interpret_field (no_exts sch) tt T m name v = (m', []) -> interpret_field sch tt T m name v = (m', []).
+Proof.
+  apply (interpret_field_transfer (no_exts sch) sch tt eq_refl eq_refl (fun _ => true) (fun _ => true)).
+  - intros nm md r _. destruct nm as [s|s]; cbn [lit_field]; [exact (fun H => H)|]. cbn. discriminate.
+  - intros nm md f _. destruct nm as [s|s]; cbn [lookup_part]; [exact (fun H => H)|]. cbn. discriminate.
+  - apply names_ok_true. reflexivity.
+  - clear. induction name; [reflexivity|exact IHname].
+Qed.
+
+(* a statement that mentions no extension is interpreted alike with and without the extensions *)
+Lemma ext_free_statement_lemma sch tt T m st m' :
+  stmt_ext_free st = true ->
+  interpret_field sch tt T m (sname st) (svalue st) = (m', []) ->
+  interpret_field (no_exts sch) tt T m (sname st) (svalue st) = (m', []).
+Proof.
+  intros Hf. unfold stmt_ext_free in Hf. apply andb_prop in Hf. destruct Hf as [Hn Hv].
+  apply (interpret_field_transfer sch (no_exts sch) tt eq_refl eq_refl lname_is_field npart_is_field).
+  - intros nm md r Hok. destruct nm as [s|s]; [exact (fun H => H)|discriminate].
+  - intros nm md f Hok. destruct nm as [s|s]; [exact (fun H => H)|discriminate].
+  - apply names_ok_ext_free. exact Hv.
+  - exact Hn.
+Qed.
+
+Section UnlinkedRun.
+Variable sch : schema.
+Variable tt : N.
+
+Lemma pass1_unlinked T : forall stmts m m1 r1,
+  noncustom_ext_free stmts = true ->
+  pass_strict sch tt false T m stmts = Ok (m1, r1) ->
+  pass_lenient (no_exts sch) tt false T m stmts = LOk m1 r1.
+Proof.
+  induction stmts as [|st r IH]; intros m m1 r1 Hf H; cbn [pass_strict] in H; cbn [pass_lenient].
+  - inversion H; reflexivity.
+  - cbn [noncustom_ext_free forallb] in Hf. apply andb_prop in Hf. destruct Hf as [Hst Hr].
+    destruct (is_custom st) eqn:Ec; cbn [Bool.eqb negb orb] in *.
+    + destruct (pass_strict sch tt false T m r) as [[m2 rem2]|x] eqn:E2; [|discriminate].
+      inversion H; subst. rewrite (IH _ _ _ Hr E2). reflexivity.
+    + destruct (interpret_field sch tt T m (sname st) (svalue st)) as [m2 [|x es]] eqn:Ei; [|discriminate].
+      rewrite (ext_free_statement_lemma _ _ _ _ _ _ Hst Ei). cbn [has_panic existsb].
+      rewrite (IH _ _ _ Hr H). reflexivity.
+Qed.
+
+Lemma pass2_unlinked T : forall r1 m,
+  forallb is_custom r1 = true -> pass_lenient (no_exts sch) tt true T m r1 = LOk m r1.
+Proof.
+  induction r1 as [|st r IH]; intros m Hc; cbn [pass_lenient]; [reflexivity|].
+  cbn [forallb] in Hc. apply andb_prop in Hc. destruct Hc as [Hst Hr]. rewrite Hst. cbn [Bool.eqb negb].
+  unfold is_custom in Hst. destruct (sname st) as [|[s|s] rest] eqn:En; try discriminate.
+  cbn [interpret_field lookup_part no_exts sexts ext_by_name has_panic existsb orb].
+  rewrite (IH m Hr). reflexivity.
+Qed.
+
+(* C21, for the run: when the strict interpretation succeeds and the non-custom options mention no extension,
+   unlinked interpretation yields exactly the message the strict interpretation has after its first pass (every
+   non-custom option with its strict value) and keeps exactly the custom options, in order *)
+Lemma unlinked_run_lemma T m0 stmts m rem :
+  noncustom_ext_free stmts = true ->
+  interpret_strict sch tt T m0 stmts = Ok (m, rem) ->
+  exists m1, pass_strict sch tt false T m0 stmts = Ok (m1, filter is_custom stmts) /\
+             interpret_unlinked sch tt T m0 stmts = LOk m1 (filter is_custom stmts).
+Proof.
+  intros Hf H. unfold interpret_strict in H.
+  destruct (pass_strict sch tt false T m0 stmts) as [[m1 r1]|x] eqn:E1; [|discriminate].
+  pose proof (pass_strict_remain _ _ _ _ _ _ _ _ E1) as Hr1.
+  assert (Er1 : r1 = filter is_custom stmts).
+  { rewrite Hr1. apply filter_ext. intros st. unfold other_phase. destruct (is_custom st); reflexivity. }
+  subst r1. rewrite Er1 in *. exists m1. split; [reflexivity|].
+  unfold interpret_unlinked, interpret_lenient. rewrite (pass1_unlinked _ _ _ _ _ Hf E1).
+  apply pass2_unlinked. rewrite forallb_forall. intros st Hst. apply filter_In in Hst. tauto.
+Qed.
+End UnlinkedRun.
+
+(* ================================================================== statements as they appear in Props *)
+Lemma uninterpreted_kept_verbatim_full_lemma : forall sch tt T m0 stmts m rem,
+  interpret_lenient sch tt T m0 stmts = LOk m rem ->
+  (exists m1, ref_walk sch tt T m0 m1 stmts = (m1, m, rem)) /\ subseq rem stmts.
+Proof.
+  intros sch tt T m0 stmts m rem H.
+  destruct (uninterpreted_kept_verbatim_lemma sch tt T m0 stmts m rem H) as [m1 Hw].
+  split; [exists m1; exact Hw|exact (ref_walk_subseq sch tt T stmts m0 m1 m1 m rem Hw)].
+Qed.
+
+Lemma no_half_population_refuted_full_lemma :
+  (exists sch tt T m name v m' e, interpret_field sch tt T m name v = (m', e) /\ e <> [] /\ m' <> m) /\
+  (exists sch tt T st m, interpret_lenient sch tt T [] [st] = LOk m [st] /\ m <> []).
+Proof. exact (conj no_half_population_refuted_lemma no_half_population_run_refuted_lemma). Qed.
